@@ -144,18 +144,111 @@ def frame_stubs(w):
         return None
     for op in ('add', 'sub', 'mul'): w.hooks['@_ZN10Goldilocks3%sERNS_7ElementERKS0_S3_' % op] = sc
 
+def region_shape(w, micro, depth=3):
+    """what the outlined function (and its callees) contains: worksharing loops, barriers, single constructs, thread-id queries"""
+    cache = w.__dict__.setdefault('_region_shape', {})
+    if micro in cache: return cache[micro]
+    sh = dict(loops=0, barriers=0, single=0, tid=0); seen = set(); todo = [(micro, 0)]
+    while todo:
+        fn, d = todo.pop()
+        if fn in seen or fn not in w.funcs: continue
+        seen.add(fn); f = w.funcs[fn]
+        for lab in f.order:
+            for ins in f.blocks[lab]:
+                if ins.op in ('call', 'invoke') and isinstance(getattr(ins, 'callee', None), tuple) and ins.callee[0] == 'global':
+                    cn = ins.callee[1]
+                    if cn.startswith('@__kmpc_for_static_init'): sh['loops'] += 1
+                    elif cn == '@__kmpc_barrier': sh['barriers'] += 1
+                    elif cn == '@__kmpc_single': sh['single'] += 1
+                    elif cn in ('@omp_get_thread_num', '@omp_get_num_threads'): sh['tid'] += 1
+                    elif cn.startswith('@__kmpc_dispatch') or cn.startswith('@__kmpc_omp_task'): sh['other'] = sh.get('other', 0) + 1
+                    elif d < depth and cn in w.funcs and not cn.startswith('@__kmpc'): todo.append((cn, d + 1))
+    cache[micro] = sh; return sh
+
+def analyse_team(w, it, micro, caps, T, label):
+    """regions with several worksharing loops, barriers, single constructs or hand partitioning by thread number: the region is executed once per
+       member of a team of T threads (static schedules as the runtime assigns them); the footprints of the team members are split into barrier
+       phases and any two members must be disjoint (up to read/read) in every phase"""
+    water = Obj.cnt
+    roots = [c.obj for c in caps if isinstance(c, Ptr) and c.obj is not None] + list(getattr(w, 'roots', []))
+    objs = w.all_objs(roots); snap = {id(o): (o, dict(o.cells), o.size) for o in objs}
+    H = w.hooks; oldb = H.get('@__kmpc_barrier'); olds = H.get('@__kmpc_single'); olde = H.get('@__kmpc_end_single')
+    H['@__kmpc_barrier'] = lambda it_, a: w.acc.append(('B', None, 0, 0))
+    H['@__kmpc_single'] = lambda it_, a: int(getattr(w, 'omp_tid', 0) == 0)
+    H['@__kmpc_end_single'] = lambda it_, a: None
+    team = []; events = []; t0 = time.time()
+    try:
+        for tid in range(T):
+            for (o, cells, sz) in snap.values(): o.cells = dict(cells); o.size = sz
+            sub = Interp(w); sub.solver = z3.Solver(); sub.solver.set('timeout', 60000); sub.solver.add(it.pc); sub.pc = list(it.pc)
+            gt = Ptr(Obj(8, 'gtid', 8, 'alloca'), 0); gt.obj.cells[0] = tid
+            w.acc = []; w.race = True; w.omp_tid = tid; w.omp_team = T
+            try: sub.call(micro, [gt, gt] + list(caps))
+            except Violation as e: events.append((list(sub.pc), e))
+            except Terminated as e: events.append((list(sub.pc), e))
+            finally: w.race = False; w.omp_tid = 0; w.omp_team = 1
+            if sub.worklist: raise Unsupported('data-dependent control flow inside a team-analysed parallel region')
+            phases = [[]]
+            for (k, o, off, n) in w.acc:
+                if k == 'B': phases.append([]); continue
+                if o is not None and o.id <= water: phases[-1].append((k, o, off, n))
+            team.append([merge(ph) for ph in phases])
+    finally:
+        for (o, cells, sz) in snap.values(): o.cells = cells; o.size = sz
+        for k, v in (('@__kmpc_barrier', oldb), ('@__kmpc_single', olds), ('@__kmpc_end_single', olde)):
+            if v is None: H.pop(k, None)
+            else: H[k] = v
+    return Region(label=label, micro=micro, team=team, T=T, events=events, paths=[Region(raw=sum(len(ph) for ph in th), acc=[], pc=[]) for th in team], info={}, t=time.time() - t0, outer_pc=list(it.pc), ivar=None)
+
+def team_query(reg, timeout=60):
+    np_ = len(reg.team[0]); pairs = 0; nq = 0
+    if any(len(th) != np_ for th in reg.team): return 'unknown', 'team members pass a different number of barriers', dict(pairs=0, queries=0)
+    for ph in range(np_):
+        for ta in range(reg.T):
+            for tb in range(ta + 1, reg.T):
+                dis = []
+                for (o1, k1, b1, c1, n1) in reg.team[ta][ph]:
+                    for (o2, k2, b2, c2, n2) in reg.team[tb][ph]:
+                        if o1 is not o2 or (k1 == 'R' and k2 == 'R'): continue
+                        pairs += 1
+                        if b1 is None and b2 is None and is_c(n1) and is_c(n2):
+                            if c1 < c2 + n2 and c2 < c1 + n1: return 'race', dict(i=ta, j=tb, phase=ph, access=[(o1.name, k1, k2, 'bytes [%d,%d) and [%d,%d)' % (c1, c1 + n1, c2, c2 + n2))]), dict(pairs=pairs, queries=nq)
+                            continue
+                        s1 = ext65(b1, c1); e1 = s1 + len65(n1); s2 = ext65(b2, c2); e2 = s2 + len65(n2)
+                        dis.append((z3.And(z3.ULT(s1, e2), z3.ULT(s2, e1)), (o1.name, k1, k2, str(b1)[:60], c1, n1, c2, n2)))
+                if dis:
+                    s = z3.Solver(); s.set('timeout', timeout * 1000); s.add(reg.outer_pc); s.add(z3.Or([d for d, _ in dis])); r = smt.check(s); nq += 1
+                    if r == z3.sat:
+                        m = s.model(); hit = [info for d, info in dis if z3.is_true(m.eval(d, model_completion=True))]
+                        return 'race', dict(i=ta, j=tb, phase=ph, access=hit[:1]), dict(pairs=pairs, queries=nq)
+                    if r == z3.unknown: return 'unknown', 'overlap query unknown', dict(pairs=pairs, queries=nq)
+    return 'free', None, dict(pairs=pairs, queries=nq)
+
 def setup(ctx, mods):
     w = core.world(ctx.bdir, mods, key='race'); w.hooks = dict(w.base_hooks); stubs.seq_fork(w); frame_stubs(w)
-    w.regions = []; w.roots = []; w.concretize_div = False; w.no_seq = False
+    w.regions = []; w.roots = []; w.concretize_div = False; w.no_seq = False; w.req_threads = None
     seq = w.hooks['@__kmpc_fork_call']
     def fork(it, a):
         micro = a[2].name if isinstance(a[2], FnPtr) else a[2]; caps = list(a[3:])
-        reg = analyse_region(w, it, micro, caps, getattr(w, 'region_label', '?'))
-        w.regions.append(reg)
+        sh = region_shape(w, micro)
+        simple = sh['loops'] == 1 and not (sh['barriers'] > 1 or sh['single'] or sh['tid'] or sh.get('other'))
+        if simple:
+            reg = analyse_region(w, it, micro, caps, getattr(w, 'region_label', '?'))
+            w.regions.append(reg)
+        else:
+            # team sizes: the one the code asks for (if concrete) and two small ones, so that uneven splits occur
+            req = w.req_threads; w.req_threads = None
+            Ts = []
+            if req is not None and is_c(req) and 1 < req < 2**31: Ts.append(min(int(req), 8))
+            for t_ in (2, 3):
+                if t_ not in Ts: Ts.append(t_)
+            for T in Ts: w.regions.append(analyse_team(w, it, micro, caps, T, getattr(w, 'region_label', '?')))
+            if req is not None: w.omp_calls.append(('num_threads', req))
         if getattr(w, 'no_seq', False): return None
         return seq(it, a)
     w.hooks['@__kmpc_fork_call'] = fork
-    w.hooks['@__kmpc_push_num_threads'] = lambda it, a: None
+    def push(it, a): w.req_threads = a[2]; return None
+    w.hooks['@__kmpc_push_num_threads'] = push
     return w
 
 def judge(regions, desc):
@@ -165,6 +258,11 @@ def judge(regions, desc):
         tot['regions'] += 1; tot['paths'] += len(reg.paths); tot['accesses'] += sum(p.raw for p in reg.paths)
         for pc, e in reg.events:
             return viol('region/%s' % getattr(e, 'kind', 'terminated'), '%s: %s inside parallel region %s' % (desc, e, reg.micro), replay=dict(event=str(e), desc=desc))
+        if getattr(reg, 'team', None) is not None:
+            v, det, st = team_query(reg); tot['pairs'] += st['pairs']; tot['queries'] += st['queries']
+            if v == 'race': return viol('race', '%s: members %d and %d of a team of %d threads perform conflicting accesses in barrier phase %d of parallel region %s: %s' % (desc, det['i'], det['j'], reg.T, det['phase'], reg.micro, det['access']), replay=dict(event='race', desc=desc, detail=str(det)))
+            if v == 'unknown': return inconc('%s: %s' % (desc, det))
+            continue
         v, det, st = race_query(reg); tot['pairs'] += st['pairs']; tot['queries'] += st['queries']
         if v == 'race': return viol('race', '%s: iterations %d and %d of parallel region %s (loop bounds %s..%s) perform conflicting accesses: %s' % (desc, det['i'], det['j'], reg.micro, reg.info.get('lb'), reg.info.get('ub'), det['access']), replay=dict(desc=desc, region=reg.micro, i=det['i'], j=det['j'], access=str(det['access'])))
         if v == 'unknown': return inconc('%s: %s' % (desc, det))
